@@ -11,7 +11,10 @@
 """
 import json, os, re, shutil, subprocess, sys, glob, concurrent.futures, time
 ROOT = os.path.dirname(os.path.dirname(os.path.abspath(__file__)))
-ENV = dict(os.environ, GOFLAGS="-mod=mod", GOPROXY="off", GOSUMDB="off", GOTOOLCHAIN="local",
+# SEED_REPO: tree the change is applied to. Default /repo itself; while other work reads /repo, a scratch
+# worktree (git -C /repo worktree add --detach /tmp/seedrepo HEAD) can be used instead (VERIF_REPO selects it).
+SEED_REPO = os.environ.get("SEED_REPO", "/repo")
+ENV = dict(os.environ, GOFLAGS="-mod=mod", GOPROXY="off", GOSUMDB="off", GOTOOLCHAIN="local", VERIF_REPO=SEED_REPO,
            VERIF_EVIDENCE_DIR=os.path.join(ROOT, "work", "seed-evidence"))
 
 
@@ -57,11 +60,11 @@ def main():
     pid, k = sys.argv[2], sys.argv[3]
     d = os.path.join(ROOT, "seeded", pid, k)
     patch = os.path.join(d, "patch.diff")
-    if subprocess.run(["git", "-C", "/repo", "status", "--porcelain"], stdout=subprocess.PIPE, text=True).stdout.strip():
-        sys.exit("/repo is not clean")
+    if subprocess.run(["git", "-C", SEED_REPO, "status", "--porcelain"], stdout=subprocess.PIPE, text=True).stdout.strip():
+        sys.exit(SEED_REPO + " is not clean")
     res = {"property": pid, "change": k, "runs": []}
     try:
-        r = subprocess.run(["git", "-C", "/repo", "apply", patch], stdout=subprocess.PIPE, stderr=subprocess.STDOUT, text=True)
+        r = subprocess.run(["git", "-C", SEED_REPO, "apply", patch], stdout=subprocess.PIPE, stderr=subprocess.STDOUT, text=True)
         if r.returncode != 0:
             sys.exit("patch does not apply: " + r.stdout)
         own = check(pid, "quick")
@@ -73,7 +76,7 @@ def main():
             with concurrent.futures.ThreadPoolExecutor(6) as ex:
                 res["runs"] += list(ex.map(lambda p: check(p, "quick"), sorted(others)))
     finally:
-        subprocess.run(["git", "-C", "/repo", "checkout", "--", "."])
+        subprocess.run(["git", "-C", SEED_REPO, "checkout", "--", "."])
     res["caught_by_own_check"] = any(r["property"] == pid and r["exit"] != 0 for r in res["runs"])
     res["caught_by"] = sorted(set(r["property"] + ":" + r["tier"] for r in res["runs"] if r["exit"] != 0))
     json.dump(res, open(os.path.join(d, "result.json"), "w"), indent=1)
